@@ -58,7 +58,7 @@ class Run:
             else:
                 self.problems.append(p)
         for k, v in rr["stats"].items():
-            self.stats[k] = self.stats.get(k, 0) + v
+            self.stats[k] = max(self.stats.get(k, 0), v) if k.endswith("_max") else self.stats.get(k, 0) + v
         for s in rr["samples"]:
             if len(self.samples) < 8:
                 self.samples.append(s)
